@@ -4,6 +4,7 @@ def H(name, clause, kind="complete", tier="quick", timeout=600, replay=True, cov
     return d
 
 HIST = "metrics-util/src/storage/histogram.rs"
+DIST = "metrics-exporter-prometheus/src/distribution.rs"
 
 PLAN = {
     "property": "C15",
@@ -42,6 +43,21 @@ PLAN = {
               kind="bounded", bound="<= 3 bounds, 2 operations, <= 4 samples", covers=2),
             H("c15_sequence_from_new", "the same from-new sequence contract with 3 operations",
               kind="bounded", bound="<= 3 bounds, 3 operations, <= 6 samples", covers=2, tier="thorough", timeout=900),
+        ],
+    }, {
+        "crate": "metrics-exporter-prometheus", "cargo_args": ["--no-default-features"],
+        "parallel": 4,
+        "build_timeout": 2400,
+        "modules": [{"file": DIST, "mod": "__verif_c15p", "src": "distribution.kani.rs"}],
+        "functions": [
+            {"item": "Matcher::matches, derived Ord for Matcher", "file": "metrics-exporter-prometheus/src/common.rs"},
+            {"item": "DistributionBuilder::{get_distribution,get_distribution_type}", "file": DIST},
+            {"item": "Distribution::{new_histogram,new_summary,record_samples}", "file": DIST},
+            {"item": "RollingSummary::{new,add,snapshot,count,is_empty}", "file": DIST},
+        ],
+        "harnesses": [
+            H("c15_matcher_matches", "Full = equality, Prefix = starts_with, Suffix = ends_with against a byte-level spec", kind="bounded",
+              bound="pattern and name from 8 literals of <= 4 bytes", covers=4, tier="thorough"),
         ],
     }],
 }
